@@ -216,6 +216,12 @@ func ScanFooter(options *StoreOptions, fref *FileRef, fileName string,
 				return nil, err
 			}
 
+			// The child footers were allocated by json.Unmarshal: give
+			// them the ref-count their parent footer holds, like the child
+			// footers built by persist and compaction have, so that closing
+			// a child collection snapshot does not release them.
+			f.initChildRefs()
+
 			// json.Unmarshal would have just loaded the map.
 			// We now need to load each segment into the map.
 			// Also recursively load child footer segment stacks.
@@ -418,6 +424,15 @@ func (f *Footer) DecRef() {
 		f.ss = nil
 	}
 	f.m.Unlock()
+}
+
+// initChildRefs recursively sets the ref-count of freshly unmarshalled
+// child footers to 1.
+func (f *Footer) initChildRefs() {
+	for _, childFooter := range f.ChildFooters {
+		childFooter.refs = 1
+		childFooter.initChildRefs()
+	}
 }
 
 // hasDroppedChildren returns true when this footer (recursively) holds
